@@ -1,4 +1,534 @@
-//! C03 — stub, replaced when the property's harness lands.
-use crate::util::{Em, Rng};
+//! C03 — prediction is a per-sample function through every calling form.
+//!
+//! (a) model-level correspondence (requests answered by the Lean model): the three composing
+//!     wrappers with scripted member models, `platt_predict`, and the structural families on real
+//!     fitted predictors whose parameters are readable (k-means, OLS / elastic net, PCA / PLS,
+//!     decision tree, isotonic regression).
+//! (b) implementation-level oracle sweep (`#` requests, see `c03_sweep.rs`).
+use crate::util::*;
+use linfa::composing::platt_scaling::platt_predict;
+use linfa::dataset::Pr;
+use linfa::traits::{Fit, Predict, PredictInplace};
+use linfa::{Dataset, MultiClassModel, MultiTargetModel};
+use ndarray::{Array1, Array2, Axis};
 
-pub fn run(_em: &mut Em, _rng: &mut Rng) {}
+#[path = "c03_sweep.rs"]
+mod sweep;
+
+/// rows carry their tag in column 0
+fn tag_rows(tags: &[usize]) -> Array2<f64> {
+    Array2::from_shape_fn((tags.len(), 2), |(i, j)| if j == 0 { tags[i] as f64 } else { 0.5 })
+}
+
+/// scripted member: answers `tab[tag]` per row; adj = 1 appends a spurious cell, adj = 2 drops one
+struct Scripted<T: Clone> {
+    tab: Vec<T>,
+    extra: T,
+    adj: usize,
+    zero: T,
+}
+impl<T: Clone> Scripted<T> {
+    fn out(&self, x: &Array2<f64>) -> Vec<T> {
+        let mut v: Vec<T> = x.rows().into_iter().map(|r| self.tab[r[0] as usize].clone()).collect();
+        if self.adj == 1 {
+            v.push(self.extra.clone());
+        } else if self.adj == 2 {
+            v.pop();
+        }
+        v
+    }
+}
+impl<T: Clone> PredictInplace<Array2<f64>, Array1<T>> for Scripted<T> {
+    fn predict_inplace(&self, x: &Array2<f64>, y: &mut Array1<T>) {
+        *y = Array1::from(self.out(x));
+    }
+    fn default_target(&self, x: &Array2<f64>) -> Array1<T> {
+        Array1::from_elem(x.nrows(), self.zero.clone())
+    }
+}
+
+fn op_mt(em: &mut Em, tags: Vec<usize>, tab: Vec<Vec<i64>>, adj: Vec<usize>) {
+    let op = format!("mt tags={} tab={} adj={}", list(tags.iter(), |x| x.to_string()), list2(tab.iter().map(|r| r.iter()), |x| x.to_string()), list(adj.iter(), |x| x.to_string()));
+    let valid = adj.iter().all(|a| *a == 0);
+    let class = format!("multi_target:m={}", if tab.is_empty() { "0" } else { "pos" });
+    let body = |ctx: &mut Ctx| {
+        let members: Vec<Box<dyn PredictInplace<Array2<f64>, Array1<i64>>>> =
+            tab.iter().zip(adj.iter()).map(|(t, a)| Box::new(Scripted { tab: t.clone(), extra: -1, adj: *a, zero: 0i64 }) as Box<dyn PredictInplace<Array2<f64>, Array1<i64>>>).collect();
+        let model = MultiTargetModel::new(members);
+        let x = tag_rows(&tags);
+        let out: Array2<i64> = model.predict(&x);
+        if valid {
+            ctx.require(out.nrows() == tags.len() && out.ncols() == tab.len(), "one_output_per_row", &class, || format!("shape {:?} for n={} m={}", out.shape(), tags.len(), tab.len()));
+            if out.nrows() == tags.len() && out.ncols() == tab.len() {
+                for (i, t) in tags.iter().enumerate() {
+                    for j in 0..tab.len() {
+                        ctx.require(out[(i, j)] == tab[j][*t], "column_j_is_model_j", &class, || format!("out[{},{}]={} but model {} predicts {} for that row", i, j, out[(i, j)], j, tab[j][*t]));
+                    }
+                }
+            }
+        }
+        format!("ok {}", list2(out.rows().into_iter().map(|r| r.to_vec()), |x: i64| x.to_string()))
+    };
+    if valid {
+        em.case_valid(op, &class, body)
+    } else {
+        em.case(op, body)
+    }
+}
+
+fn op_mc(em: &mut Em, tags: Vec<usize>, labels: Vec<usize>, tab: Vec<Vec<u32>>, adj: Vec<usize>) {
+    let op = format!(
+        "mc tags={} labels={} tab={} adj={}",
+        list(tags.iter(), |x| x.to_string()),
+        list(labels.iter(), |x| x.to_string()),
+        list2(tab.iter().map(|r| r.iter()), |x| x.to_string()),
+        list(adj.iter(), |x| x.to_string())
+    );
+    let valid = adj.iter().all(|a| *a == 0) && !tab.is_empty();
+    let class = "multi_class".to_string();
+    let body = |ctx: &mut Ctx| {
+        let members: Vec<(usize, Box<dyn PredictInplace<Array2<f64>, Array1<Pr>>>)> = labels
+            .iter()
+            .zip(tab.iter().zip(adj.iter()))
+            .map(|(l, (t, a))| {
+                let probs: Vec<Pr> = t.iter().map(|q| Pr::new(*q as f32 / 64.0)).collect();
+                (*l, Box::new(Scripted { tab: probs, extra: Pr::new(0.0), adj: *a, zero: Pr::new(0.0) }) as Box<dyn PredictInplace<Array2<f64>, Array1<Pr>>>)
+            })
+            .collect();
+        let model = MultiClassModel::new(members);
+        let x = tag_rows(&tags);
+        let out: Array1<usize> = model.predict(&x);
+        if valid {
+            ctx.require(out.len() == tags.len(), "one_output_per_row", &class, || format!("{} outputs for {} rows", out.len(), tags.len()));
+            for (i, t) in tags.iter().enumerate() {
+                if i >= out.len() {
+                    break;
+                }
+                // label of the first member with the highest probability
+                let mut best = 0;
+                for k in 1..tab.len() {
+                    if tab[k][*t] > tab[best][*t] {
+                        best = k;
+                    }
+                }
+                ctx.require(out[i] == labels[best], "label_of_highest_probability", &class, || format!("row {} (tag {}): got label {}, member {} (label {}) has the highest probability", i, t, out[i], best, labels[best]));
+            }
+        }
+        format!("ok {}", list(out.iter(), |x| x.to_string()))
+    };
+    if valid {
+        em.case_valid(op, &class, body)
+    } else {
+        em.case(op, body)
+    }
+}
+
+fn show_pr(p: Pr) -> String {
+    format!("~{}", hex64(*p as f64))
+}
+
+fn op_platt(em: &mut Em, a: f64, b: f64, xs: Vec<f64>) {
+    let op = format!("platt a={} b={} xs={}", hex64(a), hex64(b), list(xs.iter(), |x| hex64(*x)));
+    let finite = a.is_finite() && b.is_finite() && xs.iter().all(|x| x.is_finite() && (a * x + b).is_finite());
+    let class = format!("platt:a={}", if a > 0.0 { "pos" } else if a < 0.0 { "neg" } else { "zero" });
+    let body = |ctx: &mut Ctx| {
+        let ps: Vec<Pr> = xs.iter().map(|x| platt_predict(*x, a, b)).collect();
+        for (x, p) in xs.iter().zip(ps.iter()) {
+            ctx.require(**p >= 0.0 && **p <= 1.0, "probability_in_unit_interval", &class, || format!("x={} -> {}", x, **p));
+        }
+        // monotone in the decision value: p is a non-increasing function of a*x+b
+        let mut idx: Vec<usize> = (0..xs.len()).collect();
+        idx.sort_by(|i, j| (a * xs[*i] + b).partial_cmp(&(a * xs[*j] + b)).unwrap());
+        for w in idx.windows(2) {
+            let (t0, t1) = ((a * xs[w[0]] + b) as f32, (a * xs[w[1]] + b) as f32);
+            // one f32 ulp of slack where the two branches meet / libm rounding
+            let slack = 4.0 * f32::EPSILON * *ps[w[0]];
+            ctx.require(t0 == t1 && ps[w[0]] == ps[w[1]] || *ps[w[1]] <= *ps[w[0]] + slack, "monotone_sigmoid", &class, || {
+                format!("t={} -> {}, t={} -> {}", t0, *ps[w[0]], t1, *ps[w[1]])
+            });
+        }
+        format!("ok {}", list(ps.iter(), |p| show_pr(*p)))
+    };
+    if finite {
+        em.case_valid(op, &class, body)
+    } else {
+        em.case(op, body)
+    }
+}
+
+pub fn hexrows(a: &Array2<f64>) -> String {
+    list2(a.rows().into_iter().map(|r| r.to_vec()), |x: f64| hex64(x))
+}
+
+/// lattice matrix: small integers / halves
+pub fn lattice(rng: &mut Rng, n: usize, p: usize, span: i64, halves: bool) -> Array2<f64> {
+    let mut a = Array2::zeros((n, p));
+    for i in 0..n {
+        for j in 0..p {
+            let v = rng.range(-span, span) as f64;
+            a[(i, j)] = if halves { v / 2.0 } else { v };
+        }
+    }
+    a
+}
+
+/// query batch built from a pool: duplicates, permutations, empty and single-row batches
+pub fn batch_from(rng: &mut Rng, pool: &Array2<f64>, em: &mut Em) -> Array2<f64> {
+    let mode = rng.below(8);
+    let n = pool.nrows();
+    let idx: Vec<usize> = match mode {
+        0 => {
+            em.count("batch:empty");
+            vec![]
+        }
+        1 => {
+            em.count("batch:single");
+            vec![rng.below(n)]
+        }
+        2 => {
+            em.count("batch:duplicated");
+            let r = rng.below(n);
+            vec![r; 2 + rng.below(4)]
+        }
+        3 => {
+            em.count("batch:permuted");
+            let mut v: Vec<usize> = (0..n).collect();
+            rng.shuffle(&mut v);
+            v
+        }
+        _ => {
+            em.count("batch:mixed");
+            (0..1 + rng.below(2 * n)).map(|_| rng.below(n)).collect()
+        }
+    };
+    pool.select(Axis(0), &idx)
+}
+
+fn op_kmeans(em: &mut Em, rng: &mut Rng) {
+    use linfa_clustering::KMeans;
+    let p = 1 + rng.below(3);
+    let k = 1 + rng.below(4);
+    let n = k + 2 + rng.below(10);
+    let data = lattice(rng, n, p, 4, false);
+    let seed = rng.next();
+    let pool = {
+        // lattice queries incl. points equidistant from two centroids and the training points
+        let mut q = lattice(rng, 6, p, 5, true);
+        for j in 0..p {
+            q[(0, j)] = data[(0, j)];
+        }
+        q
+    };
+    let batch = batch_from(rng, &pool, em);
+    use rand::SeedableRng;
+    let model = match KMeans::params_with_rng(k, rand_xoshiro::Xoshiro256Plus::seed_from_u64(seed)).max_n_iterations(20).n_runs(1).tolerance(1e-3).fit(&Dataset::from(data.clone())) {
+        Ok(m) => m,
+        Err(_) => {
+            em.count("kmeans:fit_failed");
+            return;
+        }
+    };
+    let cents = model.centroids().clone();
+    let op = format!("kmeans cents={} rows={}", hexrows(&cents), hexrows(&batch));
+    em.case_valid(op, "kmeans", |ctx| {
+        let out: Array1<usize> = model.predict(&batch);
+        ctx.require(out.len() == batch.nrows(), "one_output_per_row", "kmeans", || format!("{} outputs for {} rows", out.len(), batch.nrows()));
+        // nearest centroid, recomputed naively
+        for (i, r) in batch.rows().into_iter().enumerate() {
+            let d: Vec<f64> = cents.rows().into_iter().map(|c| c.iter().zip(r.iter()).map(|(a, b)| (a - b) * (a - b)).sum()).collect();
+            let dm = d.iter().cloned().fold(f64::INFINITY, f64::min);
+            ctx.require(d[out[i]] <= dm + 1e-9 * (1.0 + dm), "nearest_centroid", "kmeans", || format!("row {} assigned to {} at {}, nearest at {}", i, out[i], d[out[i]], dm));
+        }
+        format!("ok {}", list(out.iter(), |x| x.to_string()))
+    });
+}
+
+fn show_t(x: f64) -> String {
+    format!("~{}", hex64c(x))
+}
+
+fn op_affine(em: &mut Em, rng: &mut Rng) {
+    let pmax = if rng.chance(1, 4) { 12 } else { 4 };
+    let p = 1 + rng.below(pmax);
+    let n = p + 2 + rng.below(8);
+    let x = lattice(rng, n, p, 6, true);
+    let y = Array1::from_shape_fn(n, |i| (0..p).map(|j| x[(i, j)] * (j as f64 - 1.0)).sum::<f64>() + 0.25 * rng.range(-4, 4) as f64);
+    let ds = Dataset::new(x.clone(), y);
+    let pool = lattice(rng, 6, p, 8, true);
+    let batch = batch_from(rng, &pool, em);
+    let enet = rng.chance(1, 3);
+    let (w, b, kind): (Array1<f64>, f64, &str);
+    let pred: Box<dyn Fn(&Array2<f64>) -> Array1<f64>>;
+    if enet {
+        let m = match linfa_elasticnet::ElasticNet::params().penalty(0.125).l1_ratio(0.5).fit(&ds) {
+            Ok(m) => m,
+            Err(_) => {
+                em.count("affine:fit_failed");
+                return;
+            }
+        };
+        w = m.hyperplane().clone();
+        b = m.intercept();
+        kind = "enet";
+        pred = Box::new(move |q| m.predict(q));
+    } else {
+        let m = match linfa_linear::LinearRegression::new().with_intercept(rng.coin()).fit(&ds) {
+            Ok(m) => m,
+            Err(_) => {
+                em.count("affine:fit_failed");
+                return;
+            }
+        };
+        w = m.params().clone();
+        b = m.intercept();
+        kind = "ols";
+        pred = Box::new(move |q| m.predict(q));
+    }
+    em.count(&format!("affine:{}", kind));
+    let op = format!("affine kind={} w={} b={} rows={}", kind, list(w.iter(), |x| hex64(*x)), hex64(b), hexrows(&batch));
+    em.case_valid(op, &format!("affine:{}", kind), |ctx| {
+        let out = pred(&batch);
+        ctx.require(out.len() == batch.nrows(), "one_output_per_row", kind, || format!("{} outputs for {} rows", out.len(), batch.nrows()));
+        format!("ok {}", list(out.iter(), |x| show_t(*x)))
+    });
+}
+
+fn op_linmap(em: &mut Em, rng: &mut Rng) {
+    let p = 2 + rng.below(3);
+    let n = p + 3 + rng.below(8);
+    let x = lattice(rng, n, p, 6, true);
+    let pool = lattice(rng, 6, p, 8, true);
+    let batch = batch_from(rng, &pool, em);
+    if rng.coin() {
+        use linfa_reduction::Pca;
+        let k = 1 + rng.below(p);
+        let m = match Pca::params(k).fit(&Dataset::from(x.clone())) {
+            Ok(m) => m,
+            Err(_) => {
+                em.count("linmap:fit_failed");
+                return;
+            }
+        };
+        let comps = m.components().clone();
+        let mean = m.mean().clone();
+        em.count("linmap:pca");
+        let op = format!(
+            "linmap kind=pca mean={} std={} cols={} bias={} rows={}",
+            list(mean.iter(), |x| hex64(*x)),
+            list(0..p, |_| hex64(1.0)),
+            hexrows(&comps),
+            list(0..comps.nrows(), |_| hex64(0.0)),
+            hexrows(&batch)
+        );
+        em.case_valid(op, "linmap:pca", |ctx| {
+            let out: Array2<f64> = m.predict(&batch);
+            ctx.require(out.nrows() == batch.nrows(), "one_output_per_row", "pca", || format!("{} outputs for {} rows", out.nrows(), batch.nrows()));
+            format!("ok {}", list2(out.rows().into_iter().map(|r| r.to_vec()), |x: f64| show_t(x)))
+        });
+    } else {
+        use linfa_pls::PlsRegression;
+        let t = 1 + rng.below(2);
+        let y = Array2::from_shape_fn((n, t), |(i, c)| x[(i, 0)] * (c as f64 + 1.0) - x[(i, 1)] + 0.25 * rng.range(-4, 4) as f64);
+        let ds = Dataset::new(x.clone(), y);
+        let m = match PlsRegression::params({ let c = 1 + rng.below(2.min(p)); c }).fit(&ds) {
+            Ok(m) => m,
+            Err(_) => {
+                em.count("linmap:fit_failed");
+                return;
+            }
+        };
+        // x_mean, x_std, y_mean are private: read them through serde
+        let v = serde_json::to_value(&m).unwrap();
+        let inner = if v.get("x_mean").is_some() { &v } else { &v[0] };
+        let arr = |key: &str| -> Vec<f64> { inner[key]["data"].as_array().map(|a| a.iter().map(|x| x.as_f64().unwrap()).collect()).unwrap_or_default() };
+        let (mean, std, ymean) = (arr("x_mean"), arr("x_std"), arr("y_mean"));
+        if mean.len() != p || std.len() != p || ymean.len() != t {
+            em.count("linmap:pls_params_unreadable");
+            return;
+        }
+        let coef = m.coefficients().clone();
+        em.count("linmap:pls");
+        let op = format!(
+            "linmap kind=pls mean={} std={} cols={} bias={} rows={}",
+            list(mean.iter(), |x| hex64(*x)),
+            list(std.iter(), |x| hex64(*x)),
+            hexrows(&coef.t().to_owned()),
+            list(ymean.iter(), |x| hex64(*x)),
+            hexrows(&batch)
+        );
+        em.case_valid(op, "linmap:pls", |ctx| {
+            let out: Array2<f64> = m.predict(&batch);
+            ctx.require(out.nrows() == batch.nrows(), "one_output_per_row", "pls", || format!("{} outputs for {} rows", out.nrows(), batch.nrows()));
+            format!("ok {}", list2(out.rows().into_iter().map(|r| r.to_vec()), |x: f64| show_t(x)))
+        });
+    }
+}
+
+fn tree_tokens(node: &linfa_trees::TreeNode<f64, usize>, out: &mut Vec<String>) {
+    if node.is_leaf() {
+        out.push(format!("L{}", node.prediction().unwrap()));
+    } else {
+        let (f, thr, _) = node.split();
+        out.push(format!("S{}:{}", f, hex64(thr)));
+        let ch = node.children();
+        tree_tokens(ch[0].as_ref().unwrap(), out);
+        tree_tokens(ch[1].as_ref().unwrap(), out);
+    }
+}
+
+fn op_tree(em: &mut Em, rng: &mut Rng) {
+    use linfa_trees::DecisionTree;
+    let p = 1 + rng.below(3);
+    let n = 6 + rng.below(14);
+    let ncls = 2 + rng.below(3);
+    let x = lattice(rng, n, p, 4, false);
+    let y = Array1::from_shape_fn(n, |i| ((x[(i, 0)] + 4.0) as usize + if rng.chance(1, 5) { 1 } else { 0 }) % ncls);
+    let ds = Dataset::new(x.clone(), y);
+    let m = match DecisionTree::params().max_depth(Some(1 + rng.below(4))).fit(&ds) {
+        Ok(m) => m,
+        Err(_) => {
+            em.count("tree:fit_failed");
+            return;
+        }
+    };
+    // queries on the thresholds (x == split value goes right) and around them
+    let pool = lattice(rng, 8, p, 9, true);
+    let batch = batch_from(rng, &pool, em);
+    let mut toks = vec![];
+    tree_tokens(m.root_node(), &mut toks);
+    em.count(&format!("tree:nodes={}", if toks.len() == 1 { "1" } else if toks.len() <= 7 { "3-7" } else { "9+" }));
+    let op = format!("tree t={} rows={}", toks.join(","), hexrows(&batch));
+    em.case_valid(op, "tree", |ctx| {
+        let out: Array1<usize> = m.predict(&batch);
+        ctx.require(out.len() == batch.nrows(), "one_output_per_row", "tree", || format!("{} outputs for {} rows", out.len(), batch.nrows()));
+        format!("ok {}", list(out.iter(), |x| x.to_string()))
+    });
+}
+
+fn op_iso(em: &mut Em, rng: &mut Rng) {
+    use linfa_linear::IsotonicRegression;
+    let n = 3 + rng.below(10);
+    let x = Array2::from_shape_fn((n, 1), |_| rng.range(-8, 8) as f64 / 2.0);
+    let y = Array1::from_shape_fn(n, |i| x[(i, 0)] + rng.range(-3, 3) as f64 / 2.0);
+    let ds = Dataset::new(x, y);
+    let m = match IsotonicRegression::new().fit(&ds) {
+        Ok(m) => m,
+        Err(_) => {
+            em.count("iso:fit_failed");
+            return;
+        }
+    };
+    let v = serde_json::to_value(&m).unwrap();
+    let arr = |key: &str| -> Vec<f64> { v[key]["data"].as_array().map(|a| a.iter().map(|x| x.as_f64().unwrap()).collect()).unwrap_or_default() };
+    let (reg, resp) = (arr("regressor"), arr("response"));
+    if reg.is_empty() || reg.len() != resp.len() {
+        em.count("iso:params_unreadable");
+        return;
+    }
+    // queries: knots, between knots, outside the range
+    let mut pool = Array2::zeros((8, 1));
+    for i in 0..8 {
+        pool[(i, 0)] = match rng.below(3) {
+            0 => reg[rng.below(reg.len())],
+            1 => rng.range(-20, 20) as f64 / 4.0,
+            _ => {
+                let j = rng.below(reg.len());
+                (reg[j] + reg[(j + 1) % reg.len()]) / 2.0
+            }
+        };
+    }
+    let batch = batch_from(rng, &pool, em);
+    let op = format!("iso reg={} resp={} rows={}", list(reg.iter(), |x| hex64(*x)), list(resp.iter(), |x| hex64(*x)), hexrows(&batch));
+    em.case_valid(op, "iso", |ctx| {
+        let out: Array1<f64> = m.predict(&batch);
+        ctx.require(out.len() == batch.nrows(), "one_output_per_row", "iso", || format!("{} outputs for {} rows", out.len(), batch.nrows()));
+        format!("ok {}", list(out.iter(), |x| hex64c(*x)))
+    });
+}
+
+fn gen_wrappers(em: &mut Em, rng: &mut Rng) {
+    let u = 1 + rng.below(5); // tag universe
+    let n = match rng.below(6) {
+        0 => 0,
+        1 => 1,
+        _ => 1 + rng.below(7),
+    };
+    let tags: Vec<usize> = (0..n).map(|_| rng.below(u)).collect();
+    let m = match rng.below(8) {
+        0 => 0,
+        1 => 1,
+        _ => 1 + rng.below(5),
+    };
+    let bad = rng.chance(1, 8);
+    let adj: Vec<usize> = (0..m).map(|_| if bad && rng.coin() { 1 + rng.below(2) } else { 0 }).collect();
+    if rng.coin() {
+        em.count(&format!("mt:n={} m={}", if n == 0 { "0" } else if n == 1 { "1" } else { "2+" }, if m == 0 { "0" } else if m == 1 { "1" } else { "2+" }));
+        let tab: Vec<Vec<i64>> = (0..m).map(|j| (0..u).map(|t| (100 * (j + 1) + t) as i64 * if rng.chance(1, 10) { -1 } else { 1 }).collect()).collect();
+        op_mt(em, tags, tab, adj);
+    } else {
+        // few distinct probabilities so that ties between members are frequent
+        let levels = [0u32, 16, 32, 32, 48, 64];
+        let tab: Vec<Vec<u32>> = (0..m).map(|_| (0..u).map(|_| *rng.pick(&levels)).collect()).collect();
+        let mut labels: Vec<usize> = (0..m).map(|j| 10 + j).collect();
+        rng.shuffle(&mut labels);
+        let ties = (0..u).any(|t| {
+            let mx = tab.iter().map(|r| r[t]).max().unwrap_or(0);
+            tab.iter().filter(|r| r[t] == mx).count() > 1
+        });
+        em.count(if ties { "mc:with_ties" } else { "mc:no_ties" });
+        op_mc(em, tags, labels, tab, adj);
+    }
+}
+
+fn gen_platt(em: &mut Em, rng: &mut Rng) {
+    let a = match rng.below(6) {
+        0 => 0.0,
+        1 => -(rng.range(1, 40) as f64) / 8.0,
+        2 => rng.range(1, 40) as f64 / 8.0,
+        3 => -(10f64.powi(rng.range(-3, 3) as i32)) * rng.unit(),
+        _ => (rng.unit() - 0.7) * 6.0,
+    };
+    let b = if rng.chance(1, 4) { 0.0 } else { (rng.unit() - 0.5) * 8.0 };
+    let n = 1 + rng.below(8);
+    let xs: Vec<f64> = (0..n)
+        .map(|_| match rng.below(7) {
+            0 => 0.0,
+            1 => -b / if a == 0.0 { 1.0 } else { a }, // branch point t ~ 0
+            2 => (rng.unit() - 0.5) * 400.0,          // saturating region (exp underflow in f32)
+            3 => (rng.unit() - 0.5) * 1e6,
+            _ => (rng.unit() - 0.5) * 20.0,
+        })
+        .collect();
+    op_platt(em, a, b, xs);
+}
+
+pub fn run(em: &mut Em, rng: &mut Rng) {
+    let scale = if em.thorough() { 12 } else { 1 };
+    // exhaustive small shapes of the multi-target reshape: every (n, m) up to 5 x 4
+    for n in 0..=5usize {
+        for m in 0..=4usize {
+            let tags: Vec<usize> = (0..n).map(|i| (i * 2 + 1) % n.max(1)).collect();
+            let tab: Vec<Vec<i64>> = (0..m).map(|j| (0..n.max(1)).map(|t| (100 * (j + 1) + t) as i64).collect()).collect();
+            op_mt(em, tags, tab, vec![0; m]);
+        }
+    }
+    for _ in 0..400 * scale {
+        gen_wrappers(em, rng);
+    }
+    for _ in 0..300 * scale {
+        gen_platt(em, rng);
+    }
+    // the boundary values of the sigmoid
+    op_platt(em, 1.0, 0.0, vec![0.0, -0.0, 1e-30, -1e-30, 88.0, 89.0, 104.0, -104.0, 1e30, -1e30, 3.5e38, -3.5e38]);
+    op_platt(em, -1.0, 0.0, vec![0.0, 17.0, -17.0, 87.5, -87.5]);
+    op_platt(em, 1.0, 0.0, vec![f64::NAN]);
+    op_platt(em, 1.0, 0.0, vec![f64::INFINITY, f64::NEG_INFINITY]);
+    for _ in 0..120 * scale {
+        op_kmeans(em, rng);
+        op_affine(em, rng);
+        op_linmap(em, rng);
+        op_tree(em, rng);
+        op_iso(em, rng);
+    }
+    sweep::run(em, rng);
+}
